@@ -236,6 +236,72 @@ SAFE_BUILTINS = {
 NATIVE_TYPES = (str, bytes, bytearray, int, float, bool, tuple, list, dict, set, frozenset, type(None), range)
 
 
+# ---- module-level initialisation (lifted from props/_helpers_C.ModuleInitMixin): which top-level statements build a module-level object
+_MUTATING_METHODS = frozenset(
+    "append extend insert remove pop popitem clear update setdefault add discard sort reverse appendleft extendleft popleft "
+    "__setitem__ __delitem__ move_to_end difference_update intersection_update symmetric_difference_update subtract".split()
+)
+_MI_SCOPES = (ast.FunctionDef, ast.AsyncFunctionDef, ast.Lambda, ast.ClassDef)
+def _root_name(node):
+    while isinstance(node, (ast.Attribute, ast.Subscript, ast.Starred)):
+        node = node.value
+    return node.id if isinstance(node, ast.Name) else None
+
+
+def _walk_same_scope(node):
+    """nodes of ``node`` that are evaluated in its own scope, when it runs (bodies of nested functions / classes and the targets of
+    comprehensions are other scopes)"""
+    todo = [node]
+    while todo:
+        n = todo.pop()
+        yield n
+        for ch in ast.iter_child_nodes(n):
+            if isinstance(ch, _MI_SCOPES):
+                continue
+            if isinstance(ch, ast.comprehension):
+                todo.extend([ch.iter, *ch.ifs])
+                continue
+            todo.append(ch)
+
+
+def stmt_touches(st, name: str):
+    """None | 'bind' | 'mutate': what the top-level statement ``st`` does to the module-level name"""
+    kind = None
+    for n in _walk_same_scope(st):
+        if isinstance(n, ast.Name) and n.id == name and isinstance(n.ctx, (ast.Store, ast.Del)):
+            return "bind"
+        if isinstance(n, (ast.Attribute, ast.Subscript)) and isinstance(n.ctx, (ast.Store, ast.Del)) and _root_name(n) == name:
+            kind = "mutate"
+        elif isinstance(n, ast.Call) and isinstance(n.func, ast.Attribute) and _root_name(n.func) == name and n.func.attr in _MUTATING_METHODS:
+            kind = "mutate"
+        elif isinstance(n, ast.Expr) and isinstance(n.value, ast.Call) and isinstance(n.value.func, ast.Attribute) and _root_name(n.value.func) == name:
+            kind = "mutate"  # a method call whose value is discarded is made for its effect
+        elif isinstance(n, (ast.alias,)) and (n.asname or n.name.split(".")[0]) == name:
+            return None  # (an import inside if/try: resolved through mod.imports, not here)
+    return kind
+
+
+def module_init_statements(mod, name: str):
+    """The top-level statements that build the module-level object ``name``, in program order - or None when plain `NAME = expr`
+    statements are all there is (pyint's own rule, last assignment wins, is exact then)."""
+    cache = mod.__dict__.setdefault("_init_stmts_cache", {})
+    if name not in cache:
+        out, plain = [], True
+        for st in mod.tree.body:
+            if isinstance(st, (ast.FunctionDef, ast.AsyncFunctionDef, ast.ClassDef, ast.Import, ast.ImportFrom)):
+                continue
+            kind = stmt_touches(st, name)
+            if kind is None:
+                continue
+            out.append(st)
+            simple = (isinstance(st, ast.Assign) and all(isinstance(t, ast.Name) for t in st.targets)) or (isinstance(st, ast.AnnAssign) and isinstance(st.target, ast.Name))
+            if not (kind == "bind" and simple):
+                plain = False
+        cache[name] = None if plain or not out else out
+    return cache[name]
+
+
+
 def _default_trusted():
     import base64, binascii, codecs, collections, collections.abc, enum, functools, html, ipaddress, itertools, math, operator, re, string, struct, textwrap
 
@@ -936,6 +1002,8 @@ class Interp:
         key = (mod.rel, ident)
         if key in self._modconst:
             return self._modconst[key]
+        if module_init_statements(mod, ident) is not None:
+            return self.modconst(mod, ident, depth)
         for st in mod.tree.body:
             if isinstance(st, ast.Assign):
                 for t in st.targets:
@@ -959,9 +1027,33 @@ class Interp:
 
     def modconst(self, mod, name, depth):
         key = (mod.rel, name)
-        if key not in self._modconst:
+        if key in self._modconst:
+            return self._modconst[key]
+        stmts = module_init_statements(mod, name)
+        if stmts is None:  # plain `NAME = expr` statements only: the last one is the value
             self._modconst[key] = self.ev(mod.assigns(name)[-1], {}, mod, depth)
-        return self._modconst[key]
+            return self._modconst[key]
+        # the object is completed by later top-level statements (`T = {}` .. `T[k] = f`, `T.update(..)`, a `for` filling it, `if c: N = a else: N = b`):
+        # execute exactly those statements, in program order, like the import of the module does
+        busy = self.__dict__.setdefault("_modinit_busy", set())
+        if key in busy:
+            raise AnalysisError(f"pyint: module-level initialisation of {mod.rel}::{name} depends on itself through another module-level name (not modelled)")
+        busy.add(key)
+        try:
+            env: dict = {}
+            try:
+                for st in stmts:
+                    self.stmt(st, env, mod, depth)
+            except Raised as r:
+                raise AnalysisError(f"pyint: module-level initialisation of {mod.rel}::{name} raises {r.name} (not modelled)")
+            except (_Return, _Break, _Continue):
+                raise AnalysisError(f"pyint: module-level initialisation of {mod.rel}::{name}: control flow not modelled")
+        finally:
+            busy.discard(key)
+        if name not in env:
+            raise AnalysisError(f"pyint: module-level initialisation of {mod.rel}::{name} leaves the name unbound on the evaluated path")
+        self._modconst[key] = env[name]
+        return env[name]
 
     def class_attr(self, cref: ClassRef, attr, depth):
         for m, c in self.model.mro(cref.mod.rel, getattr(cref.node, "_qual", cref.node.name)):
